@@ -72,7 +72,10 @@ def write_cfg(path, *, init="Init", next_="Next", spec=None, constants=None, inv
     if constants:
         lines.append("CONSTANTS")
         for k, v in constants.items():
-            lines.append(f"  {k} = {tla_literal(v)}")
+            if isinstance(v, str) and v.startswith("@"):
+                lines.append(f"  {k} <- {v[1:]}")       # substitution by a definition of the module
+            else:
+                lines.append(f"  {k} = {tla_literal(v)}")
     for inv in invariants:
         lines.append(f"INVARIANT {inv}")
     for p in properties:
